@@ -51,15 +51,15 @@ theorem handleCreate_ok (c : Cfg) (s s' : Store) (tx : Tx) (k : Key) (d : NDoc)
     exact ⟨Classical.not_not.mp hne, storeAdd_ok c s s' tx d h⟩
 
 theorem deliver_ok_inv (c : Cfg) (s s' : Store) (tx : Tx) (pd : Option NDoc) (h : deliver c s tx pd = .ok s') :
-    verifySig c.maxDepth s tx = .ok () ∧ callback c s tx pd = .ok s' := by
+    verifySig s tx = .ok () ∧ callback c s tx pd = .ok s' := by
   unfold deliver at h
   split at h
   · rename_i hv; exact ⟨hv, h⟩
   · cases h
   · cases h
 
-theorem verifySig_embedded (n : Nat) (s : Store) (tx : Tx) (k : Key) (he : tx.embedded = some k)
-    (h : verifySig n s tx = .ok ()) : k = tx.signer := by
+theorem verifySig_embedded (s : Store) (tx : Tx) (k : Key) (he : tx.embedded = some k)
+    (h : verifySig s tx = .ok ()) : k = tx.signer := by
   unfold verifySig at h
   rw [he] at h
   simp only at h
@@ -67,8 +67,8 @@ theorem verifySig_embedded (n : Nat) (s : Store) (tx : Tx) (k : Key) (he : tx.em
   · assumption
   · cases h
 
-theorem verifySig_kid (n : Nat) (s : Store) (tx : Tx) (he : tx.embedded = none)
-    (h : verifySig n s tx = .ok ()) : resolvePublicKey n s tx.kid tx.prevs = .ok tx.signer := by
+theorem verifySig_kid (s : Store) (tx : Tx) (he : tx.embedded = none)
+    (h : verifySig s tx = .ok ()) : resolvePublicKeyStore s tx.kid tx.prevs = .ok tx.signer := by
   unfold verifySig at h
   rw [he] at h
   simp only at h
@@ -323,6 +323,133 @@ theorem activeWithin_chain (R : String → Res Doc) :
         simp only [List.head?_cons, Option.some.injEq] at hhead
         subst hhead
         exact ⟨⟨d, hd, hr, hne⟩, hch⟩
+
+/-! ### the ambassador's key resolver (through `didnuts.Resolver`) agrees with the verifier's (store only) -/
+
+theorem resolveRefs_err_not_skippable (res : String → Res Doc) :
+    ∀ (refs : List String) (e : String), resolveRefs res refs = .err e → skippable e = false := by
+  intro refs
+  induction refs with
+  | nil => intro e h; simp [resolveRefs] at h
+  | cons r rs ih =>
+    intro e h
+    unfold resolveRefs at h
+    split at h
+    · split at h
+      · cases h
+      · rename_i e' he'; cases h; exact ih e he'
+      · cases h
+    · rename_i e' _
+      split at h
+      · exact ih e h
+      · rename_i hs; cases h; simpa using hs
+    · cases h
+
+theorem resolveN_notFound (R : String → Res Doc) :
+    ∀ (n : Nat) (id : String), resolveN R false n id = .err eNotFound → R id = .err eNotFound := by
+  intro n id h
+  cases n with
+  | zero => simp [resolveN, eTooDeep, eNotFound] at h
+  | succ n =>
+    unfold resolveN at h
+    split at h
+    · rename_i d hd
+      split at h
+      · split at h
+        · split at h
+          · simp [eNoActiveController, eNotFound] at h
+          · cases h
+        · rename_i e he
+          simp only [Res.err.injEq] at h
+          subst h
+          unfold ctrlsWith at he
+          split at he
+          · cases he
+          · rename_i e' he'
+            cases he
+            have := resolveRefs_err_not_skippable _ _ _ he'
+            simp [skippable, eNotFound] at this
+          · cases he
+        · cases h
+      · cases h
+    · rename_i e he
+      cases h
+      exact he
+    · cases h
+
+theorem resolverResolve_ok_store (n : Nat) (s : Store) (rm : Option ResolveMeta) (ha : allowOf rm = false)
+    (id : String) (d : Doc) (h : resolverResolve n s rm id = .ok d) : storeDoc s rm id = .ok d := by
+  unfold resolverResolve at h
+  rw [ha] at h
+  simp only [Bool.false_eq_true, if_false] at h
+  exact (resolveN_ok _ n id d h).1
+
+theorem resolverResolve_notFound_store (n : Nat) (s : Store) (rm : Option ResolveMeta) (ha : allowOf rm = false)
+    (id : String) (h : resolverResolve n s rm id = .err eNotFound) : storeDoc s rm id = .err eNotFound := by
+  unfold resolverResolve at h
+  rw [ha] at h
+  simp only [Bool.false_eq_true, if_false] at h
+  exact resolveN_notFound _ n id h
+
+theorem resolvePublicKey1_ok_store (n : Nat) (s : Store) (kid : Kid) (rm : Option ResolveMeta) (ha : allowOf rm = false)
+    (k : Key) (h : resolvePublicKey1 (resolverResolve n s) kid rm = .ok k) :
+    resolvePublicKey1 (storeDoc s) kid rm = .ok k := by
+  unfold resolvePublicKey1 at h ⊢
+  split at h
+  · cases h
+  · rename_i hp
+    simp only [hp, if_false]
+    split at h
+    · rename_i doc hd
+      rw [resolverResolve_ok_store n s rm ha _ doc hd]
+      exact h
+    · cases h
+    · cases h
+
+theorem resolvePublicKey1_notFound_store (n : Nat) (s : Store) (kid : Kid) (rm : Option ResolveMeta) (ha : allowOf rm = false)
+    (h : resolvePublicKey1 (resolverResolve n s) kid rm = .err eNotFound) :
+    resolvePublicKey1 (storeDoc s) kid rm = .err eNotFound := by
+  unfold resolvePublicKey1 at h ⊢
+  split at h
+  · simp [eInvalidKid, eNotFound] at h
+  · rename_i hp
+    simp only [hp, if_false]
+    split at h
+    · split at h
+      · simp [eKeyNotFound, eNotFound] at h
+      · split at h
+        · cases h
+        · simp [eBadJwk, eNotFound] at h
+        · cases h
+    · rename_i e he
+      cases h
+      rw [resolverResolve_notFound_store n s rm ha _ he]
+      simp
+    · cases h
+
+/-- whenever the ambassador's key resolver finds a key for (`kid`, prevs), the verifier's finds the same key -/
+theorem resolvePublicKey_ok_store (n : Nat) (s : Store) (kid : Kid) :
+    ∀ (prevs : List Nat) (k : Key), resolvePublicKey n s kid prevs = .ok k → resolvePublicKeyStore s kid prevs = .ok k := by
+  intro prevs
+  induction prevs with
+  | nil => intro k h; simp [resolvePublicKey, resolvePublicKeyWith] at h
+  | cons p ps ih =>
+    intro k h
+    unfold resolvePublicKey resolvePublicKeyWith at h
+    unfold resolvePublicKeyStore resolvePublicKeyWith
+    split at h
+    · rename_i k' hk'
+      cases h
+      rw [resolvePublicKey1_ok_store n s kid _ rfl k hk']
+    · rename_i e he
+      split at h
+      · rename_i heq
+        subst heq
+        rw [resolvePublicKey1_notFound_store n s kid _ rfl he]
+        simp only [if_true]
+        exact ih k h
+      · cases h
+    · cases h
 
 /-! ### handleUpdate -/
 
